@@ -7,4 +7,7 @@ PROPS = {
                           'thorough': ['probe:noreach_chain_extended_twice',
                                        'fault:exception_mid_generation',
                                        'probe:corelang']}},
+    'C05': {'module': 'sim.c05', 'quick': 4000, 'thorough': 300000, 'chunk': 40},
+    'C06': {'module': 'sim.c06', 'quick': 3000, 'thorough': 150000, 'chunk': 40},
+    'C07': {'module': 'sim.c07', 'quick': 2500, 'thorough': 120000, 'chunk': 25},
 }
